@@ -33,6 +33,17 @@ CHECKS.update({
                 text='Model of BatchGenerator (per-dimension caches, refill loop with fuel, slice, drop). Proved for every source, batch size and number of calls: batches concatenated ++ cache = draws concatenated, in every dimension with the same cut points (no loss, duplication, reordering; rows stay paired); every batch has exactly batch_size entries when draws are non-empty (termination hypothesis). Correspondence: real BatchGenerator on spy leaves vs the model on the recorded draws, exact comparison.',
                 note='Hypothesis of the size theorem: the underlying generator keeps producing non-empty draws (otherwise the real while-loop diverges).'),
 })
+CHECKS.update({
+    'C04': dict(engine='state', technique=TB, design='§7 C04',
+                text='Model of BaseSolver._run_epoch/fit (draws, per-batch closure evaluations, mean loss, plain vs closure-based optimiser steps, validation) plus routing models (bundle eq_param_index selection with the n_funcs+1 offset, spherical coordinate truncation, loss dispatch). Proved for all histories: exactly n_batches draws per phase; recorded loss = mean of batch losses at constant parameters (plain) ; one step per epoch (plain) / per batch (closure); validation changes no parameter; the whole training view (parameters, training losses/metrics, steps, draws) is independent of validation over any sequence of fits. Correspondence: all five real solver classes in a scripted world, event logs and per-epoch dumps compared exactly.',
+                note='Partial: optimiser arithmetic and gradient accumulation are oracles (scripted integer optimisers); the residual/condition formulas are covered by C01, C02, C10-C12.'),
+    'C05': dict(engine='state', technique=TB, design='§7 C05',
+                text='BestInv proved by induction over any sequence of fit() calls/epochs/callback actions: lowest_loss is a lower bound of the tracked history attained at an index before which all entries are strictly larger, and best_nets is the snapshot taken at that index; snapshot = the parameters the recorded loss was computed with (validation, or plain optimiser without validation); best frozen unless strictly lower. The closure-optimiser/no-validation configuration is proved to violate reproducibility (decide witness) and is reported as a KNOWN-FINDING, replayed with real LBFGS.',
+                note='Known finding: closure-based optimiser with n_batches_valid=0 (snapshot after the step).'),
+    'C15': dict(engine='state', technique=TB, design='§7 C15',
+                text='Proved over any sequence of fits: every metric series has one entry per epoch of its phase (LenInv), global epoch = train-loss length grows by one per epoch, validation series by one iff validation is on, local epoch = index of the epoch within the call and <= max_epochs, the loop ends right after the first epoch that requested a stop and the flag is cleared by the next fit, metric entries are batch means (last closure evaluation per batch for closure optimisers). Correspondence as C04/C05.',
+                note='The metric-accumulation defect under closure optimisers was repaired in /repo (fix: 72f0a67); the model mirrors the repaired code.'),
+})
 NOT_YET = {}
 
 def main():
